@@ -453,6 +453,14 @@ def planted_cases():
                 dn["properties"].append(P("lookalike", ddt, dvals))
                 sn["properties"].append(P("lookalike", sdt, svals))
                 cases.append({"dest": enc(d), "src": enc(s), "strict": strict, "planted": ["values-of-lookalike-type", tag, depth, "prop"]})
+        # numbers (zeros in particular) merged into a text Property are converted to their text
+        for sdt, svals, tag in (("int", [0, 5], "string<-int"), ("float", [0.0, 2.5], "string<-float"), ("int", [0], "string<-zero-only")):
+            for depth in (0, 1):
+                d, s = template(), template()
+                dn, sn = (d, s) if depth == 0 else (d["sections"][0], s["sections"][0])
+                dn["properties"].append(P("textual", "string", ["a"]))
+                sn["properties"].append(P("textual", sdt, svals))
+                cases.append({"dest": enc(d), "src": enc(s), "strict": strict, "planted": ["numbers-into-text", tag, depth, "prop"]})
         # names that are canonically equivalent (NFC / NFD) but not equal are different names
         for depth in (0, 1):
             d, s = template(), template()
